@@ -1,6 +1,7 @@
 package checks
 
 import (
+	"math/big"
 	"fmt"
 
 	"github.com/zenon-network/go-zenon/chain/nom"
@@ -121,6 +122,31 @@ func runC03(r *simrt.Run) {
 					out = append(out, tx.Block)
 				}
 			}
+		}
+		// a competitor for a height that a pooled receive already occupies: it stands on the receive's
+		// predecessor, pays more plasma (so the pool would prefer it) and spends what the account holds only
+		// AFTER that receive
+		for _, u := range w.Users {
+			pooled := f.Chain.GetUncommittedAccountBlocksByAddress(u.Address)
+			if len(pooled) == 0 || t.Choose(3) != 0 {
+				continue
+			}
+			last := pooled[len(pooled)-1]
+			if last.BlockType != nom.BlockTypeUserReceive {
+				continue
+			}
+			after, err := f.Chain.GetFrontierAccountStore(u.Address).GetBalance(types.ZnnTokenStandard)
+			if err != nil || after.Sign() <= 0 {
+				continue
+			}
+			b := &nom.AccountBlock{Version: 1, ChainIdentifier: last.ChainIdentifier, BlockType: nom.BlockTypeUserSend, PreviousHash: last.PreviousHash, Height: last.Height,
+				MomentumAcknowledged: f.Frontier().Identifier(), Address: u.Address, ToAddress: w.Users[t.Choose(len(w.Users))].Address, Amount: new(big.Int).Set(after),
+				TokenStandard: types.ZnnTokenStandard, FusedPlasma: 2 * 21000, BasePlasma: 21000, TotalPlasma: 2 * 21000}
+			b.Hash = b.ComputeHash()
+			b.Signature = u.Sign(b.Hash.Bytes())
+			b.PublicKey = append([]byte(nil), u.Public...)
+			out = append(out, b)
+			r.Probe("candidate-competing-with-pooled-receive")
 		}
 		// the contract receives the judged node itself would generate for the heads of its inboxes
 		// (non-empty when the producer lost its pool in a restart and the calls wait across momentums)
